@@ -107,30 +107,20 @@ Theorem C19_div_scalar : forall t, num_ty t = true -> forall a d dq, vty t a -> 
   rt_div a d = pw_scalar qs_div t a dq.
 Proof. exact div_scalar_pointwise. Qed.
 
-(* unary minus.  NOTE: the type checker rejects `-(1, 2)` (Constraint::Neg admits int and float only), so
-   this law of the runtime is not reachable from a Sylt program today; reported as a finding. *)
+(* unary minus (admitted by the type checker on (nested) tuples of numbers since /repo 612fb00) *)
 Theorem C19_neg_pointwise : forall t, num_ty t = true -> forall a, vty t a -> rt_neg a = pw1 Z.opp Qopp t a.
 Proof. exact neg_pointwise. Qed.
 
-(* + on strings concatenates; + on numeric types is element-wise *)
+(* + on strings concatenates *)
 Theorem C19_add_str_concat : forall s u, rt_add (VStr s) (VStr u) = Ok (VStr (s ++ u)).
 Proof. exact add_str_concat. Qed.
 
-Theorem C19_add_num_pointwise : forall t, num_ty t = true -> forall a b, vty t a -> vty t b ->
+(* + on everything the type checker's `add` admits -- numbers, strings and (nested) tuples of them -- is
+   element-wise, strings concatenating also INSIDE tuples (since /repo a9ac36e; before, this statement was
+   refuted by ("a", 1) + ("b", 2)) *)
+Theorem C19_add_pointwise : forall t, add_ty t = true -> forall a b, vty t a -> vty t b ->
   rt_add a b = pw_add t a b.
-Proof. exact add_num_pointwise. Qed.
-
-(* FULL-STRENGTH statement for + over everything the type checker admits (strings inside tuples too): FALSE *)
-Definition C19_add_pointwise_statement : Prop :=
-  forall t a b, add_ty t = true -> vty t a -> vty t b -> rt_add a b = pw_add t a b.
-
-Theorem C19_add_pointwise_refuted :
-  exists t a b, add_ty t = true /\ vty t a /\ vty t b /\ rt_add a b = Err /\
-                pw_add t a b = Ok (VTuple [VStr "ab"; VInt 3]).
-Proof. exact add_pointwise_refuted. Qed.
-
-Theorem C19_add_pointwise_false : ~ C19_add_pointwise_statement.
-Proof. exact add_pointwise_false. Qed.
+Proof. exact add_pointwise. Qed.
 
 (* Non-vacuity: a nested type with an enum, a list and tuples has values, and the operators compute on them. *)
 Example C19_example_typed :
@@ -144,6 +134,7 @@ Example C19_example_ops :
     = Ok (VTuple [VInt (-2); VTuple [VFloat (2 # 1)]]) /\
   rt_div (VTuple [VInt 1; VInt 4]) (VInt 2) = Ok (VTuple [VFloat (1 # 2); VFloat (2 # 1)]) /\
   rt_tostring (VTuple [VFloat (1 # 2); VFloat (2 # 1); VInt 2]) = "(0.5, 2.0, 2)" /\
+  rt_add (VTuple [VStr "a"; VInt 1]) (VTuple [VStr "b"; VInt 2]) = Ok (VTuple [VStr "ab"; VInt 3]) /\
   rt_eq (VBlob [("x", VInt 1); ("y", VStr "s")]) (VBlob [("y", VStr "s"); ("x", VInt 1)]) = true.
 Proof. vm_compute. repeat split; reflexivity. Qed.
 
@@ -171,6 +162,4 @@ Print Assumptions C19_arith_closed.
 Print Assumptions C19_div_scalar.
 Print Assumptions C19_neg_pointwise.
 Print Assumptions C19_add_str_concat.
-Print Assumptions C19_add_num_pointwise.
-Print Assumptions C19_add_pointwise_refuted.
-Print Assumptions C19_add_pointwise_false.
+Print Assumptions C19_add_pointwise.
